@@ -277,7 +277,18 @@ func emit(c *hx.Ctx, mode string, ti txInfo, run *txRun, ids *idtab, pre, post [
 	if ap.rc != nil && ap.rc.Success {
 		endOk = "ok"
 	}
-	c.Line(fmt.Sprintf("end %s %d", endOk, run.rawGas), rcStr(ap))
+	ghost := " m0" // wasm: the runtime's host calls must not create or destroy coins on balance (AddBalance / pay vs SubBalance)
+	if !run.wasm {
+		ghost = " b0"
+		if endOk == "ok" {
+			ghost = " b" + burnsOf(run.tr, pre).String()
+		}
+	}
+	rcs := rcStr(ap)
+	if strings.HasPrefix(rcs, "rc ") {
+		rcs += ghost
+	}
+	c.Line(fmt.Sprintf("end %s %d", endOk, run.rawGas), rcs)
 	for i, a := range post {
 		id := i + 1
 		if skipPost[id] {
@@ -438,6 +449,9 @@ func (cc *caseCtx) fail(sig, detail string) {
 }
 
 func runCase(c *hx.Ctx, cs c15case) error {
+	if cs.Mode == "congest" {
+		return runCongest(c, cs)
+	}
 	r := rand.New(rand.NewSource(cs.Seed))
 	w := chainfx.NewWorld(cs.Seed, 8, 100, time.Date(2030, 1, 1, 0, 0, 0, 0, time.UTC))
 	h, err := chainfx.Bootstrap(w, chainfx.HistoryOpts{}, r, false)
@@ -496,8 +510,9 @@ func (cc *caseCtx) runShadow() error {
 		case 2:
 			tt += int64(cc.r.Intn(5000))
 		}
-		hh++
-		tt += 20
+		hh += 1 + cc.g.jump
+		tt += 20 * int64(1+cc.g.jump)
+		cc.g.jump = 0
 		var seed types.Seed
 		seed.SetBytes(common.ToBytes(hh))
 		hdr := &types.Header{ProposedHeader: &types.ProposedHeader{Height: hh, Time: tt, BlockSeed: seed}}
@@ -645,9 +660,8 @@ func dumpAll(st *state.StateDB, codes *codetab) fullDump {
 }
 
 func (cc *caseCtx) runChain(step func() (*types.Block, error)) error {
-	c, n, w := cc.c, cc.n, cc.w
+	n, w := cc.n, cc.w
 	snd := chainfx.NewSender(w)
-	god := w.Addrs[0]
 	// baseline: what an empty block does to the ledger
 	l0 := n.Ledger()
 	if _, err := step(); err != nil {
@@ -661,155 +675,172 @@ func (cc *caseCtx) runChain(step func() (*types.Block, error)) error {
 		if !ok {
 			continue
 		}
-		ki := w.Index(ti.Sender)
-		stx, err := snd.Send(n, ki, ti.Tx)
-		if err != nil {
-			c.Hit("rejected-by-pool:" + kindName(ti.Tx.Type))
-			cc.g.rejected(ti)
-			continue
-		}
-		ti.Tx = stx
-		chainfx.Advance(20 * time.Second)
-		p, err := n.Propose()
-		if err != nil {
-			cc.fail("C15:propose-failed", err.Error())
+		if cc.oneChain(snd, ti, emptyGrowth) {
 			break
 		}
-		blk := p.Block
-		if len(blk.Body.Transactions) != 1 || blk.Body.Transactions[0].Hash() != stx.Hash() {
-			c.Hit("chain:not-included")
-			cc.g.rejected(ti)
-			if err := n.Add(blk); err != nil {
-				cc.fail("C15:own-block-rejected", err.Error())
-				break
-			}
-			continue
-		}
-		isContract := stx.Type == types.DeployContractTx || stx.Type == types.CallContractTx || stx.Type == types.TerminateContractTx
-		var run *txRun
-		var ids *idtab
-		var bp applied
-		var txFee, fpg *big.Int
-		var gl int64
-		if isContract {
-			B, err := n.App.ForCheck(n.Chain.Head.Height())
-			if err != nil {
-				return err
-			}
-			fpg = new(big.Int).Set(n.App.State.FeePerGas())
-			txFee = n.Chain.C15TxFee(n.App, stx)
-			gl = n.Chain.C15GasLimit(n.App, stx)
-			ids = newIdtab()
-			run = &txRun{tr: &trace{ids: ids, codes: cc.codes}}
-			ids.id(ti.Sender)
-			ca := cc.g.contractAddr(n.App, ti)
-			run.tr.contract = &ca
-			ids.id(ca)
-			bp = applyWith(n, B, blk.Header, stx, func(v vm.VM) vm.VM { return &recVM{real: v, run: run} })
-		}
-		before := dumpAll(n.App.State, cc.codes)
-		lb := n.Ledger()
-		if err := n.Add(blk); err != nil {
-			cc.fail("C15:own-block-rejected", fmt.Sprintf("%s: %v", ti.Desc, err))
-			break
-		}
-		after := dumpAll(n.App.State, cc.codes)
-		la := n.Ledger()
-		if !isContract {
-			cc.g.applied(ti, applied{}, n.App)
-			c.Hit("aux-tx")
-			continue
-		}
-		rc := n.Chain.GetReceipt(stx.Hash())
-		if rc == nil {
-			cc.fail("C15:no-receipt", ti.Desc)
-			break
-		}
-		// the chain's result in the shape of `applied` (fee = what the receipt and the fee rule say)
-		ap := applied{rc: rc, fee: new(big.Int).Add(txFee, rc.GasCost)}
-		if rcStr(ap) != rcStr(bp) {
-			cc.fail("C15:recorder-diverges", fmt.Sprintf("%s: chain receipt %s vs recording Run %s", ti.Desc, rcStr(ap), rcStr(bp)))
-			break
-		}
-		pre := make([]acct, len(ids.list))
-		post := make([]acct, len(ids.list))
-		get := func(d fullDump, a common.Address) acct {
-			if x, ok := d.accts[a]; ok {
-				return x
-			}
-			return acct{Bal: new(big.Int)}
-		}
-		skip := map[int]bool{}
-		for i, a := range ids.list {
-			pre[i], post[i] = get(before, a), get(after, a)
-			if a == god {
-				skip[i+1] = true // the proposer's balance also receives the block reward
-			}
-		}
-		cc.account(ti, run, ap)
-		if !skip[ids.id(ti.Sender)] {
-			emit(c, "chain", ti, run, ids, pre, post, ap, gl, txFee, fpg, n.Cfg.Consensus.EnableUpgrade11, skip)
-		}
-		burns := burnsOf(run.tr, pre)
-		if len(skip) == 0 {
-			oracle(cc.fail, ti, ids, pre, post, ap, txFee, fpg, burns, "chain")
-		}
-		// full-state oracle: nothing outside the touched set (and the proposer) changed; identities untouched
-		touched := map[common.Address]bool{god: true}
-		for _, a := range ids.list {
-			touched[a] = true
-		}
-		for a, x := range after.accts {
-			if touched[a] {
-				continue
-			}
-			if y, ok := before.accts[a]; !ok || !x.equal(y) {
-				cc.fail("C15:untouched-account-changed", fmt.Sprintf("%s: %s: %s -> %s", ti.Desc, a.Hex(), before.accts[a], x))
-			}
-		}
-		for a, y := range before.accts {
-			if _, ok := after.accts[a]; !ok && !touched[a] && (y.Bal.Sign() != 0 || y.HasCon || y.Nonce != 0 || len(y.Store) > 0) {
-				cc.fail("C15:untouched-account-changed", fmt.Sprintf("%s: %s vanished: %s", ti.Desc, a.Hex(), y))
-			}
-		}
-		for a, x := range after.idents {
-			if a != god && before.idents[a] != x {
-				cc.fail("C15:identity-changed-by-contract-tx", fmt.Sprintf("%s: identity %s", ti.Desc, a.Hex()))
-			}
-		}
-		if !rc.Success {
-			// failed: every account except sender (fee, nonce) and proposer (reward) is byte-identical, all stores too
-			for a, x := range after.accts {
-				if a == god || a == ti.Sender {
-					continue
-				}
-				if y, ok := before.accts[a]; !ok || !x.equal(y) {
-					cc.fail("C15:failed-tx-left-trace", fmt.Sprintf("%s failed (%v): %s: %s -> %s", ti.Desc, rc.Error, a.Hex(), before.accts[a], x))
-				}
-			}
-			if ti.Sender != god {
-				x, y := after.accts[ti.Sender], before.accts[ti.Sender]
-				if x.conStr() != y.conStr() || x.storeStr() != y.storeStr() {
-					cc.fail("C15:failed-tx-left-trace", fmt.Sprintf("%s failed: sender %s -> %s", ti.Desc, y, x))
-				}
-			}
-		}
-		// ledger: growth of the whole ledger <= growth of an empty block - burns (fees are partly burnt, never minted)
-		if len(la.Negative) > 0 {
-			cc.fail("C15:negative-balance", fmt.Sprintf("%s: %v", ti.Desc, la.Negative))
-		}
-		growth := new(big.Int).Sub(la.Total, lb.Total)
-		bound := new(big.Int).Set(emptyGrowth)
-		if rc.Success {
-			bound.Sub(bound, burns)
-		}
-		if growth.Cmp(bound) > 0 {
-			cc.fail("C15:ledger-grew", fmt.Sprintf("%s: ledger total grew by %s > empty-block growth %s - burns %s", ti.Desc, growth, emptyGrowth, burns))
-		}
-		cc.g.applied(ti, ap, n.App)
-		c.Rep.Evaluations++
 	}
 	return nil
 }
+
+// oneChain: one transaction in its own block on the real chain (pool -> ProposeBlock -> AddBlock), with the recording
+// run on a check state under the proposed header, full state dumps around the block and all oracles. Returns true
+// when the case cannot continue.
+func (cc *caseCtx) oneChain(snd *chainfx.Sender, ti txInfo, emptyGrowth *big.Int) bool {
+	c, n, w := cc.c, cc.n, cc.w
+	god := w.Addrs[0]
+	ki := w.Index(ti.Sender)
+	stx, err := snd.Send(n, ki, ti.Tx)
+	if err != nil {
+		c.Hit("rejected-by-pool:" + kindName(ti.Tx.Type))
+		if len(c.Rep.Notes) < 8 {
+			c.Rep.Notes = append(c.Rep.Notes, fmt.Sprintf("pool refused %s: %v", ti.Desc, err))
+		}
+		cc.g.rejected(ti)
+		return false
+	}
+	ti.Tx = stx
+	chainfx.Advance(20 * time.Second)
+	p, err := n.Propose()
+	if err != nil {
+		cc.fail("C15:propose-failed", err.Error())
+		return true
+	}
+	blk := p.Block
+	if len(blk.Body.Transactions) != 1 || blk.Body.Transactions[0].Hash() != stx.Hash() {
+		c.Hit("chain:not-included")
+		cc.g.rejected(ti)
+		if err := n.Add(blk); err != nil {
+			cc.fail("C15:own-block-rejected", err.Error())
+			return true
+		}
+		return false
+	}
+	isContract := stx.Type == types.DeployContractTx || stx.Type == types.CallContractTx || stx.Type == types.TerminateContractTx
+	var run *txRun
+	var ids *idtab
+	var bp applied
+	var txFee, fpg *big.Int
+	var gl int64
+	if isContract {
+		B, err := n.App.ForCheck(n.Chain.Head.Height())
+		if err != nil {
+			cc.fail("C15:harness-forcheck", err.Error())
+			return true
+		}
+		fpg = new(big.Int).Set(n.App.State.FeePerGas())
+		txFee = n.Chain.C15TxFee(n.App, stx)
+		gl = n.Chain.C15GasLimit(n.App, stx)
+		ids = newIdtab()
+		run = &txRun{tr: &trace{ids: ids, codes: cc.codes}}
+		ids.id(ti.Sender)
+		ca := cc.g.contractAddr(n.App, ti)
+		run.tr.contract = &ca
+		ids.id(ca)
+		bp = applyWith(n, B, blk.Header, stx, func(v vm.VM) vm.VM { return &recVM{real: v, run: run} })
+	}
+	before := dumpAll(n.App.State, cc.codes)
+	lb := n.Ledger()
+	if err := n.Add(blk); err != nil {
+		cc.fail("C15:own-block-rejected", fmt.Sprintf("%s: %v", ti.Desc, err))
+		return true
+	}
+	after := dumpAll(n.App.State, cc.codes)
+	la := n.Ledger()
+	if !isContract {
+		cc.g.applied(ti, applied{}, n.App)
+		c.Hit("aux-tx")
+		return false
+	}
+	rc := n.Chain.GetReceipt(stx.Hash())
+	if rc == nil {
+		cc.fail("C15:no-receipt", ti.Desc)
+		return true
+	}
+	// the chain's result in the shape of `applied` (fee = what the receipt and the fee rule say)
+	ap := applied{rc: rc, fee: new(big.Int).Add(txFee, rc.GasCost)}
+	if rcStr(ap) != rcStr(bp) {
+		cc.fail("C15:recorder-diverges", fmt.Sprintf("%s: chain receipt %s vs recording Run %s", ti.Desc, rcStr(ap), rcStr(bp)))
+		return true
+	}
+	pre := make([]acct, len(ids.list))
+	post := make([]acct, len(ids.list))
+	get := func(d fullDump, a common.Address) acct {
+		if x, ok := d.accts[a]; ok {
+			return x
+		}
+		return acct{Bal: new(big.Int)}
+	}
+	skip := map[int]bool{}
+	for i, a := range ids.list {
+		pre[i], post[i] = get(before, a), get(after, a)
+		if a == god {
+			skip[i+1] = true // the proposer's balance also receives the block reward
+		}
+	}
+	cc.account(ti, run, ap)
+	if !skip[ids.id(ti.Sender)] {
+		emit(c, "chain", ti, run, ids, pre, post, ap, gl, txFee, fpg, n.Cfg.Consensus.EnableUpgrade11, skip)
+	}
+	burns := burnsOf(run.tr, pre)
+	if len(skip) == 0 {
+		oracle(cc.fail, ti, ids, pre, post, ap, txFee, fpg, burns, "chain")
+	}
+	// full-state oracle: nothing outside the touched set (and the proposer) changed; identities untouched
+	touched := map[common.Address]bool{god: true}
+	for _, a := range ids.list {
+		touched[a] = true
+	}
+	for a, x := range after.accts {
+		if touched[a] {
+			return false
+		}
+		if y, ok := before.accts[a]; !ok || !x.equal(y) {
+			cc.fail("C15:untouched-account-changed", fmt.Sprintf("%s: %s: %s -> %s", ti.Desc, a.Hex(), before.accts[a], x))
+		}
+	}
+	for a, y := range before.accts {
+		if _, ok := after.accts[a]; !ok && !touched[a] && (y.Bal.Sign() != 0 || y.HasCon || y.Nonce != 0 || len(y.Store) > 0) {
+			cc.fail("C15:untouched-account-changed", fmt.Sprintf("%s: %s vanished: %s", ti.Desc, a.Hex(), y))
+		}
+	}
+	for a, x := range after.idents {
+		if a != god && before.idents[a] != x {
+			cc.fail("C15:identity-changed-by-contract-tx", fmt.Sprintf("%s: identity %s", ti.Desc, a.Hex()))
+		}
+	}
+	if !rc.Success {
+		// failed: every account except sender (fee, nonce) and proposer (reward) is byte-identical, all stores too
+		for a, x := range after.accts {
+			if a == god || a == ti.Sender {
+				return false
+			}
+			if y, ok := before.accts[a]; !ok || !x.equal(y) {
+				cc.fail("C15:failed-tx-left-trace", fmt.Sprintf("%s failed (%v): %s: %s -> %s", ti.Desc, rc.Error, a.Hex(), before.accts[a], x))
+			}
+		}
+		if ti.Sender != god {
+			x, y := after.accts[ti.Sender], before.accts[ti.Sender]
+			if x.conStr() != y.conStr() || x.storeStr() != y.storeStr() {
+				cc.fail("C15:failed-tx-left-trace", fmt.Sprintf("%s failed: sender %s -> %s", ti.Desc, y, x))
+			}
+		}
+	}
+	// ledger: growth of the whole ledger <= growth of an empty block - burns (fees are partly burnt, never minted)
+	if len(la.Negative) > 0 {
+		cc.fail("C15:negative-balance", fmt.Sprintf("%s: %v", ti.Desc, la.Negative))
+	}
+	growth := new(big.Int).Sub(la.Total, lb.Total)
+	bound := new(big.Int).Set(emptyGrowth)
+	if rc.Success {
+		bound.Sub(bound, burns)
+	}
+	if growth.Cmp(bound) > 0 {
+		cc.fail("C15:ledger-grew", fmt.Sprintf("%s: ledger total grew by %s > empty-block growth %s - burns %s", ti.Desc, growth, emptyGrowth, burns))
+	}
+	cc.g.applied(ti, ap, n.App)
+	c.Rep.Evaluations++
+	return false
+}
+
 
 var _ = bytes.Compare
